@@ -94,6 +94,9 @@ func GenPeerScenario(rng *rand.Rand, id int) *PeerScenario {
 		sc.PreProp = []string{";PM: LA1AAA ZZZ999 1234 someone@example.com Subject with spaces", ";"}[:1+rng.Intn(2)]
 	}
 	nLib := []int{0, 1, 2, 3, 5, 6, 7, 11, 13}[rng.Intn(9)]
+	if sc.EarlyFQ && nLib == 0 && rng.Intn(2) == 0 {
+		sc.HangUpAfterFQ = true
+	}
 	if sc.EarlyFQ && nLib > 5 {
 		nLib = 5
 	}
@@ -196,6 +199,11 @@ func RunPeerScenario(ps *PeerScenario) ([]rec.Event, Result) {
 			return sec.Password, nil
 		})
 	}
+	var gate chan struct{}
+	if ps.Script.HangUpAfterFQ {
+		gate = make(chan struct{})
+		lib.OutboundGate = gate
+	}
 	type ret struct {
 		s     string
 		stats fbb.TrafficStats
@@ -228,6 +236,9 @@ func RunPeerScenario(ps *PeerScenario) ([]rec.Event, Result) {
 			done <- rt
 		}()
 		rt.err, rt.probs = RunPeer(ps.Script, l.End("B"), r, ps.Seed, expect)
+		if gate != nil {
+			close(gate)
+		}
 	}()
 	res := Result{Ret: map[string]string{}}
 	timeout := time.After(20 * time.Second)
